@@ -40,6 +40,27 @@ CountProg(kind, n, g) ==
                \o [i \in 1..g |-> DW(<<"0", BS, "X" \o ToString(i), BS, "+", "0">>)] \o <<ENDM>>
   IN [f \in {"a.asm"} |-> <<L(<<"C1">>, "SET", N(0))>> \o lines \o <<DW(<<"C1">>)>>]
 
+\* reference depth (MacroProg RefDepthProg): three levels of constructs (the property's bound), every kind at every
+\* level; definition levels D; and per (kinds, D) a choice of the remaining dimensions (GLOBALSYMBOLS mask, name
+\* written / handed down, forward / backward, decoy) that runs through all of them as kinds and D vary: z is the
+\* index of (via, (fwd, decoy)), the masks come in two strata - {} (every level adds a link to the chain: the deep
+\* walks) and the non-empty ones.  Forward uses with the decoy in front are pass-dependent (MacroProg PassDependent,
+\* `indef`): thorough generates some to show that the specification sets them aside.
+RefFD == <<<<FALSE, "PRE">>, <<FALSE, "NONE">>, <<FALSE, "POST">>, <<TRUE, "NONE">>, <<TRUE, "POST">>>>
+RefJobs ==
+  LET Ds == IF Q THEN <<{1}, {2}, {1, 2}, {1, 3}>> ELSE <<{1}, {2}, {3}, {1, 2}, {1, 3}, {2, 3}, {1, 2, 3}>>
+      Gs == <<{1}, {2}, {3}, {1, 2}, {1, 3}, {2, 3}, {1, 2, 3}>>
+      mk(a, b, c, di, g, z) == [ks |-> <<RefKindSeq[a], RefKindSeq[b], RefKindSeq[c]>>, gs |-> g, via |-> (z % 2 = 1), D |-> Ds[di],
+                                fwd |-> RefFD[(z \div 2) % 5 + 1][1], decoy |-> RefFD[(z \div 2) % 5 + 1][2]]
+      reps == IF Q THEN {0} ELSE {0, 3, 6}
+      K == 1..6
+      sDeep == {mk(a, b, c, di, {}, a + 2 * b + 3 * c + 5 * di + r) : a \in K, b \in K, c \in K, di \in DOMAIN Ds, r \in reps}
+      sFlat == {mk(a, b, c, di, Gs[(a + b + c + di + r) % 7 + 1], a + 3 * b + c + 7 * di + r) :
+                 a \in K, b \in K, c \in (IF Q THEN {((a + b) % 6) + 1} ELSE K), di \in DOMAIN Ds, r \in reps}
+      sOpen == IF Q THEN {}
+              ELSE {[mk(a, b, ((a + b) % 6) + 1, 1, {}, a + b) EXCEPT !.fwd = TRUE, !.decoy = "PRE"] : a \in K, b \in K}
+  IN {J(<<"refdepth", c.ks, c.D, c.gs, c.via, c.fwd, c.decoy>>, RefDepthProg(c), NoBins) : c \in {x \in sDeep \cup sFlat \cup sOpen : RefValid(x)}}
+
 Jobs ==
   CASE Family = "bind" ->
          {J(<<"bind", t[1], sh, t[2]>>, BindProg(t[1], sh, t[2], Refs(t[1]), t[2] >= t[1]), NoBins) :
@@ -57,6 +78,7 @@ Jobs ==
     [] Family = "label" -> {J(<<"label", g, n, i>>, LabelProg(g, n, i), NoBins) : g \in BOOLEAN, n \in 1..3, i \in {"NONE", "REPT", "EMPTY", "EMPTYREPT"}}
     [] Family = "scope" -> {J(<<"scope", o, i, n, pre>>, ScopeProg(o, i, n, pre), NoBins) :
                               o \in ScopeOuters, i \in ScopeInners, n \in (IF Q THEN {0, 2} ELSE 0..3), pre \in BOOLEAN}
+    [] Family = "refdepth" -> RefJobs
     [] Family = "incl" -> {J(<<"incl", d, v>>, InclProg(d, v), NoBins) : d \in 1..3, v \in BOOLEAN}
     [] Family = "bin" ->
          {J(<<"bin", sz, o, ln>>, BinProg(sz, o, ln), BinFile(sz)) :
@@ -86,7 +108,7 @@ Jobs ==
 Compute(j) ==
   LET M == RunMachine(j.files, j.bins, "a.asm")
       D == ExpandDecl(j.files, j.bins, "a.asm")
-  IN [tag |-> j.tag, targets |-> j.targets, p |-> j.files, bins |-> j.bins, e |-> D.flat, indef |-> D.indef, m |-> MachineFlat(M),
+  IN [tag |-> j.tag, targets |-> j.targets, p |-> j.files, bins |-> j.bins, e |-> D.flat, indef |-> (D.indef \/ PassDependent(D.raw)), m |-> MachineFlat(M),
       devs |-> M.devs, errs |-> M.errs, same |-> (MachineFlat(M) = D.flat)]
 
 \* the runs are made in the only step of a behaviour (so that all TLC workers share the jobs)
